@@ -1,6 +1,6 @@
 import SqlObjVerif.Model.Cache
 import SqlObjVerif.Model.DrvUtil
-/-! Driver for C04 (stateful).  Requests (classes `P`=0, `K`=1, `F`=2; objects are named by application slots):
+/-! Driver for C04 (stateful).  Requests (classes `P`=0, `K`=1, `F`=2, `S`=3; objects are named by application slots):
     `reset <doCache> <cullFrequency> <cullFraction>` | `create <cls> <id|->` | `get <cls> <id>` |
     `select <cls> <ids|->` | `look <cls> <id>` | `fk <slot> <cls> <id|->` | `join <slot> <cls> <ids|->` |
     `drop <slot>` | `gc <slot>*` | `expire <slot>` | `expireAll` | `destroy <slot>` | `pickle <slot>` |
@@ -19,7 +19,7 @@ structure D where
 def D.init (cfg : Cfg) : D := { s := Cache.init cfg, slotOf := [], handleOf := [], next := 0 }
 
 def cls? : String → Option Cls
-  | "P" => some 0 | "K" => some 1 | "F" => some 2 | _ => none
+  | "P" => some 0 | "K" => some 1 | "F" => some 2 | "S" => some 3 | _ => none
 
 def ids? (s : String) : Option (List Nat) :=
   if s == "-" then some [] else
